@@ -180,6 +180,10 @@ class Fallback(Val):
     __slots__ = ()
 
 
+class Diverged(Exception):
+    """a followed callee / evaluated closure never returns (process::exit, panic): the caller does not continue either"""
+
+
 class Effect:
     """a call model's answer that also WRITES through `&mut` arguments: ret = the returned value, writes = [(argument index, new
     value of the place behind that argument)] (e.g. `Read::read_to_string(&mut file, &mut buf)`)"""
@@ -1138,6 +1142,12 @@ class Interp:
                 if fn.endswith("into_iter"):
                     return as_iter
                 return self.builtin_models(cs, [as_iter] + list(args[1:]))
+        if fn == "core::iter::traits::collect::IntoIterator::into_iter" and d and (cs.name or "").startswith(("<core::option::Option<", "<&'a core::option::Option<", "<&'a mut core::option::Option<")):
+            # `opt.into_iter()`: zero or one item
+            if d[0].k == "variant" and d[0].v == "None":
+                return Val("iter", [])
+            if d[0].k == "adt" and d[0].extra and d[0].extra[1] == "Some" and d[0].v:
+                return Val("iter", [d[0].v[0] if args[0].k != "ref" else Val("ref", d[0].v[0])])
         if fn in ("std::collections::hash::map::HashMap::new", "std::collections::hash::map::HashMap::with_capacity", "alloc::collections::btree::map::BTreeMap::new"):
             return Val("list", [], "map")
         if fn.startswith(("std::collections::hash::map::HashMap::", "alloc::collections::btree::map::BTreeMap::")) and d and d[0].k == "list" and d[0].extra == "map":
@@ -1240,6 +1250,8 @@ class Interp:
                 r = sub.run({1: Val("adt", list(st.v), ("coroutine", "state"))})
                 if self._res is not None:
                     self._res.calls.extend(r.calls)
+                if r.kind == "diverge":
+                    raise Diverged()
                 if r.kind != "return" or r.ret is None:
                     return Val("unknown", "ret:%s(%s)" % (st.extra[1], r.kind))
                 return Val("adt", [r.ret], ("core::task::poll::Poll", "Ready"))
@@ -1268,6 +1280,8 @@ class Interp:
         r = sub.run({1 + i: a for i, a in enumerate(args)})
         if self._res is not None:
             self._res.calls.extend(r.calls)
+        if r.kind == "diverge":
+            raise Diverged()
         if r.kind != "return" or r.ret is None:
             return Val("unknown", "ret:%s(%s)" % (key, r.kind))
         return r.ret
@@ -1358,6 +1372,12 @@ class Interp:
         if fn == "alloc::string::String::truncate" and cur.k == "str" and len(args) > 1 and args[1].deref().k == "int" and all(ord(ch) < 128 for ch in cur.v):
             env[tgt] = vstr(cur.v[:args[1].deref().v])
             return UNIT
+        if fn == "alloc::string::String::split_off" and cur.k == "str" and len(args) > 1 and args[1].deref().k == "int" and all(ord(ch) < 128 for ch in cur.v) and 0 <= args[1].deref().v <= len(cur.v):
+            env[tgt] = vstr(cur.v[:args[1].deref().v])
+            return vstr(cur.v[args[1].deref().v:])
+        if fn == "alloc::vec::Vec::split_off" and cur.k == "list" and len(args) > 1 and args[1].deref().k == "int" and 0 <= args[1].deref().v <= len(cur.v):
+            env[tgt] = Val("list", list(cur.v[:args[1].deref().v]), cur.extra)
+            return Val("list", list(cur.v[args[1].deref().v:]), cur.extra)
         if fn == "alloc::string::String::clear" and cur.k == "str":
             env[tgt] = vstr("")
             return UNIT
@@ -1770,6 +1790,8 @@ class Interp:
         r = sub.run(init)
         if self._res is not None:
             self._res.calls.extend(r.calls)
+        if r.kind == "diverge":
+            raise Diverged()
         if r.kind != "return" or r.ret is None:
             return UNKNOWN
         return r.ret
@@ -1905,11 +1927,16 @@ class Interp:
             elif k == "call":
                 cs = CallSite(body, bb, t)
                 args = [self.operand(env, a) for a in cs.args]
-                r = self.stateful_call(env, cs, args)
-                if r is None and self.follow is not None and self.depth < MAX_DEPTH:
-                    r = self.follow_call(cs, args)
-                if r is None:
-                    r = self.model_call(cs, args)
+                try:
+                    r = self.stateful_call(env, cs, args)
+                    if r is None and self.follow is not None and self.depth < MAX_DEPTH:
+                        r = self.follow_call(cs, args)
+                    if r is None:
+                        r = self.model_call(cs, args)
+                except Diverged:
+                    res.calls.append((cs, args, Val("unknown", "diverged")))
+                    res.kind = "diverge"
+                    break
                 if r is None:
                     r = Val("unknown", "ret:%s" % cs.name)
                 res.calls.append((cs, args, r))
